@@ -144,6 +144,15 @@ def build(route, recipe):
     if route == "vectors":
         V = np.array(recipe["L"], dtype=float) * s
         return UnitCell(V), "UnitCell(%r)" % (V.tolist(),)
+    if route in ("vectors_fortran", "vectors_colT"):
+        # the caller holds its lattice in column-major memory (np.asfortranarray, or the transpose of a column-vector matrix)
+        V = np.array(recipe["L"], dtype=float) * s
+        held = np.asfortranarray(V) if route == "vectors_fortran" else np.ascontiguousarray(V.T).T
+        held0 = held.copy()
+        cell = UnitCell(held)
+        if not np.array_equal(held, held0):
+            raise ArgumentMutated(route)
+        return cell, "UnitCell(<column-major copy of> %r)" % (V.tolist(),)
     if route == "params_rad":
         return (UnitCell.from_lengths_and_angles(lengths, angles),
                 "UnitCell.from_lengths_and_angles(%r, %r)" % (lengths, angles))
@@ -338,12 +347,16 @@ def float_recipes(ctx):
     for i in range(ctx.pick(60, 900)):
         lengths = [round(rng.uniform(3.0, 40.0), 4) for _ in range(3)]
         if i % 5 == 0:
-            lengths[1] = lengths[0] + rng.choice([1e-7, 4e-7, 3e-6])        # two edges a hair apart
+            lengths[1] = lengths[0] + rng.choice([1e-7, 4e-7, 3e-6, 2e-5, 7e-5, 1e-4])        # two edges a hair apart
         base = rng.choice([[90, 90, 90], [90, 90, 120], [90, 100 + rng.randint(0, 20), 90], [90, 90, 90],
                            [rng.randint(70, 110), rng.randint(70, 110), rng.randint(70, 110)]])
         angles = [float(b) for b in base]
         for k in rng.sample(range(3), rng.randint(1, 3)):
             angles[k] = angles[k] + rng.choice([-1, 1]) * rng.choice(deltas)
+        if i % 7 == 3:
+            # two angles a few ten-thousandths of a degree apart (119.9997 next to 120)
+            k1, k2 = rng.sample(range(3), 2)
+            angles[k2] = angles[k1] + rng.choice([-1, 1]) * rng.choice([3e-6, 2e-4, 6e-4, 1e-3])
         route = rng.choice(["params_deg", "params_rad", "triclinic_deg", "vectors", "vectors_rot", "respec_params"])
         out.append({"kind": "F", "lengths": lengths, "angles_deg": angles, "route": route, "pts": rand_points(rng),
                     "rot": [rng.gauss(0, 1) for _ in range(4)], "source": "decimal-parameters"})
@@ -501,6 +514,8 @@ def recipe_for(rng, kind, M, source, family=None, all_routes=False):
     routes = (["vectors", "respec_vectors"] if kind == "L" else []) + ["params_rad", "params_deg", "respec_params",
                                                                       "params_rad_np", "params_deg_np"]
     routes += wrappers if all_routes else [rng.choice(wrappers)]
+    if kind == "L":
+        routes.append(rng.choice(["vectors_fortran", "vectors_colT"]))
     extra = ["params_rad_rt", "params_deg_rt", "triclinic_rad_rt", "nudged_params", "twin_params"] + (["nudged_vectors", "twin_vectors"] if kind == "L" else [])
     routes += extra if all_routes else rng.sample(extra, 2)
     # the twin routes come first: nothing in the process has yet described the judged cell when its near twin is built
